@@ -24,7 +24,7 @@ from tools import vlib
 from tools.vlib import Outcome, sx
 
 MANIFEST = {
-    "level_text": "Coq theorems (Properties/C19.v, no axioms) about a Gallina transcription of save_to_tauri_config / from_tauri_config / validate (config.rs) and of the configuration phase of run_generate and run_init (bin): for every JSON document, every settings value (all twelve fields), every path into the document outside plugins.typegen, every set of files and every flag set: an accepted save preserves every other path (C19_preserve) and reads back as the settings written (C19_roundtrip); the save is refused with an error exactly when the root or plugins is not an object (C19_save_refused); init refuses invalid settings and unwritable documents without touching any file (C19_init_reject_first, C19_init_unsaveable) and otherwise leaves save_doc of the old document (C19_init_document); generate uses flag over file over default for all observable settings and refuses invalid effective settings without a write (C19_precedence, C19_generate_reject_first) on the complement of the two remaining known-finding classes C19-1 and C19-6, each with a computed counterexample. The model is tied to /repo on every run: library calls on random documents (compared as JSON values) and the real binary on all 2^5 flag subsets x configuration-file variants and on random init runs.",
+    "level_text": "Coq theorems (Properties/C19.v, no axioms) about a Gallina transcription of save_to_tauri_config / from_tauri_config / validate (config.rs) and of the configuration phase of run_generate and run_init (bin): for every JSON document, every settings value (all twelve fields), every path into the document outside plugins.typegen, every set of files and every flag set: an accepted save preserves every other path (C19_preserve) and reads back as the settings written (C19_roundtrip); the save is refused with an error exactly when the root or plugins is not an object (C19_save_refused); init refuses invalid settings and unwritable documents without touching any file (C19_init_reject_first, C19_init_unsaveable) and otherwise leaves save_doc of the old document (C19_init_document); generate uses flag over file over default for all observable settings and refuses invalid effective settings without a write (C19_precedence, C19_generate_reject_first) for every set of files and flag set, without exception (no known-finding class is left). The model is tied to /repo on every run: library calls on random documents (compared as JSON values) and the real binary on all 2^5 flag subsets x configuration-file variants and on random init runs.",
     "level_note": "JSON numbers are opaque tokens of serde_json's number model (u64/i64/f64): preservation of numbers is equality of those values, not of their spelling (1e3 comes back as 1000.0). Parsing and printing of JSON text (serde_json) is outside the model: the model starts from the value serde_json reads, the oracle from the reference reading of the text (a misread decimal is therefore reported). Analysis and generation are reduced to which project, which output directory, which mode. Not modelled: the explicit -c/--config standalone file (from_file), init targets not named tauri.conf.json, the build-script entry (build/mod.rs load_configuration: file over default only, no flags). Force is observed through an immediate identical second run (relies on the cache being stable for a one-command project). Of the boolean oracles only roundtrip_b is proved to accept the model's own output.",
     "technique": "Rocq/Coq proof over hand-written model + correspondence check (extracted OCaml vs Rust harness and the real CLI binary in sandboxes)",
     "design_ref": "DESIGN.md section 5 C19, section 11 (preserve/save_writes/roundtrip/precedence spike)"
@@ -650,15 +650,7 @@ def eval_generate(cases):
             corr = kind == "nocommands"
         else:
             corr = kind == "run" and eff and vlib.sx_parse(sx(obs[1])) == eff[0]
-        kf = None
-        if not ok:
-            # which recorded defect explains the difference between what was seen and the specification
-            seen = vlib.sx_parse(sx(obs[1])) if obs[0] == "ran" else None
-            if "C19-1" in kfs:
-                kf = "C19-1"
-            elif "C19-6" in kfs and seen is not None and [x for i, x in enumerate(seen) if i != 4] == \
-                    [x for i, x in enumerate(spec_eff) if i != 4]:
-                kf = "C19-6"
+        kf = None                           # no recorded defect is left for generate
         det = {"impl": {"seen": obs, "raw": raw}, "model": result, "spec": {"invalid": spec_invalid, "effective": spec_eff},
                "classes": kfs}
         if ok and corr:
@@ -698,13 +690,13 @@ def exhaustive_generate_cases():
 
 
 GEN_CORPUS = [
-    ("C19-1 witness: unsupported library in the file", {"src_tauri": "proj", "files": {"tauri.conf.json": sec_text({"validationLibrary": "yup", "outputPath": "./outF"})}},
+    ("regression (fixed C19-1): unsupported library in the file is refused", {"src_tauri": "proj", "files": {"tauri.conf.json": sec_text({"validationLibrary": "yup", "outputPath": "./outF"})}},
      {"project": None, "output": None, "lib": None, "verbose": False, "viz": False, "force": False}),
-    ("C19-1: missing project path in the file", {"src_tauri": "proj", "files": {"tauri.conf.json": sec_text({"projectPath": "./nope", "outputPath": "./outF"})}},
+    ("regression (fixed C19-1): missing project path in the file is refused", {"src_tauri": "proj", "files": {"tauri.conf.json": sec_text({"projectPath": "./nope", "outputPath": "./outF"})}},
      {"project": None, "output": None, "lib": None, "verbose": False, "viz": False, "force": False}),
-    ("C19-1: file relies on the default project, flag gives the real one", {"src_tauri": "absent", "files": {"tauri.conf.json": sec_text({"outputPath": "./outF", "validationLibrary": "zod"})}},
+    ("regression (fixed C19-1): file relies on the default project, flag gives the real one", {"src_tauri": "absent", "files": {"tauri.conf.json": sec_text({"outputPath": "./outF", "validationLibrary": "zod"})}},
      {"project": "./projB", "output": None, "lib": None, "verbose": False, "viz": False, "force": False}),
-    ("C19-6 witness: verbose only in the file", {"src_tauri": "proj", "files": {"tauri.conf.json": sec_text({"verbose": True})}},
+    ("regression (fixed C19-6): verbose only in the file", {"src_tauri": "proj", "files": {"tauri.conf.json": sec_text({"verbose": True})}},
      {"project": None, "output": None, "lib": None, "verbose": False, "viz": False, "force": False}),
     ("flag library invalid", {"src_tauri": "proj", "files": {}},
      {"project": None, "output": None, "lib": "yup", "verbose": False, "viz": False, "force": False}),
